@@ -303,6 +303,91 @@ standin_reorder_scenarios.prop = "C06"
 STANDINS.append(standin_reorder_scenarios)
 
 
+def standin_subcircuit_handling(tier, seed):
+    """sub-circuit operations (tagged to be ignored or not, nested, repeated) under deep=False / deep=True: tagged operations are
+    found unchanged at the same nesting position, untagged sub-circuits are untouched unless deep is requested, the unitary stays"""
+    import cirq
+
+    rng = random.Random(seed + 9)
+    a, b, c = cirq.LineQubit.range(3)
+    qs = [a, b, c]
+    one = [cirq.X ** 0.5, cirq.Z ** 0.25, cirq.H, cirq.Y ** 0.3, cirq.T]
+
+    def body():
+        ms = []
+        for _ in range(rng.randrange(2, 5)):
+            if rng.random() < 0.7:
+                ms.append(cirq.Moment(rng.choice(one)(q) for q in rng.sample(qs, rng.randrange(1, 3))))
+            else:
+                ms.append(cirq.Moment(rng.choice([cirq.CZ, cirq.CNOT])(*rng.sample(qs, 2))))
+        return ms
+
+    def sub(depth):
+        ms = body()
+        if depth > 0 and rng.random() < 0.6:
+            ms.insert(rng.randrange(len(ms) + 1), cirq.Moment(sub(depth - 1)))
+        op = cirq.CircuitOperation(cirq.FrozenCircuit(ms))
+        if rng.random() < 0.3:
+            op = op.repeat(2)
+        if rng.random() < 0.5:
+            op = op.with_tags("ignore")
+        return op
+
+    def tagged_ops(circ):
+        out = []
+        for op in circ.all_operations():
+            if "ignore" in op.tags:
+                out.append(repr(op))
+            elif isinstance(op.untagged, cirq.CircuitOperation):
+                out += tagged_ops(op.untagged.circuit)
+        return sorted(out)
+
+    def top_subcircuits(circ):
+        return sorted(repr(op) for op in circ.all_operations() if isinstance(op.untagged, cirq.CircuitOperation))
+
+    # expand_composite decomposes sub-circuit operations on purpose (a CircuitOperation is a composite operation): not part of these clauses
+    tfs = [t for t in _transformers() if t[1] is not None and not any(k in t[0] for k in ("unroll", "Gauge", "dynamical", "defer", "index_tags", "optimize_for_target", "expand_composite"))]
+    structural = ("align_left", "align_right", "stratified_circuit", "synchronize_terminal_measurements", "drop_empty_moments", "drop_negligible_operations", "insertion_sort_transformer",
+                  "drop_diagonal_before_measurement")  # transformers that never replace an operation by an equivalent one
+    cases, fails = 0, []
+    for _ in range(12 if tier == "quick" else 150):
+        circ = cirq.Circuit(body()[:2], sub(2), body()[:1], rng.choice(one)(a).with_tags("ignore"))
+        want_u = circ.unitary(qubit_order=qs, qubits_that_should_be_present=qs)
+        for deep in (False, True):
+            ctx = cirq.TransformerContext(tags_to_ignore=("ignore",), deep=deep)
+            for name, tf in tfs:
+                try:
+                    out = tf(circ, ctx)
+                except Exception:
+                    continue
+                cases += 1
+                args = dict(transformer=name, deep=deep, circuit=repr(circ))
+                # transformers that may absorb a whole untagged sub-circuit operation as one unit (k-qubit merges) are only held to the
+                # tagged operations of the level they work on; the others to every nesting level
+                absorbing = any(k in name for k in ("merge_k_qubit", "merge_operations_to_circuit_op", "eject_", "merge_single_qubit_gates"))
+                top_in = sorted(repr(o) for o in circ.all_operations() if "ignore" in o.tags)
+                top_out = sorted(repr(o) for o in out.all_operations() if "ignore" in o.tags)
+                if top_in != top_out or (not absorbing and tagged_ops(out) != tagged_ops(circ)):
+                    fails.append(dict(args=args, failed="ignored-tag-touched", clause=f"{name}(deep={deep}) changed an operation (or sub-circuit) carrying a tag listed in tags_to_ignore"))
+                elif not deep and name in structural and top_subcircuits(out) != top_subcircuits(circ):
+                    fails.append(dict(args=args, failed="subcircuit-rewritten-without-deep", clause=f"{name} rewrote a sub-circuit although deep=False"))
+                else:
+                    got = cirq.Circuit(cirq.decompose(out, keep=lambda o: not isinstance(o.untagged, cirq.CircuitOperation))).unitary(qubit_order=qs, qubits_that_should_be_present=qs)
+                    if not cirq.allclose_up_to_global_phase(got, want_u, atol=1e-6):
+                        fails.append(dict(args=args, failed="meaning-changed", clause=f"{name}(deep={deep}): unitary changed"))
+    seen, uniq = set(), []
+    for f in fails:
+        k = (f["failed"], f["args"]["transformer"].split("(")[0])
+        if k not in seen:
+            seen.add(k)
+            uniq.append(f)
+    return dict(function=F + "/*[sub-circuit operations, tags_to_ignore, deep]", case="subcircuit-handling",
+                bound=f"seeded circuits with nested / repeated / tagged CircuitOperations on 3 qubits x deep False/True x {len(tfs)} transformer configurations", cases=cases, distinct=cases,
+                failures=len(fails), exhaustive=False, _fails=uniq[:4])
+standin_subcircuit_handling.prop = "C06"
+STANDINS.append(standin_subcircuit_handling)
+
+
 def _replay_merge(ob, seed):
     for s in range(4):
         r = standin_transformers("thorough", seed + 500 + s, only="merge_operations_to_circuit_op", n=300)
